@@ -62,6 +62,11 @@ func atomicCut(c *Ctx, nilCfg bool) func(caller, callee *ssa.Function) bool {
 			return true
 		}
 		if !c.P.AllFuncs[callee] {
+			// synthetic wrappers of module methods (bound method values `x.m` handed on as callbacks, thunks) are followed:
+			// their body is the one static call of the wrapped module method
+			if callee.Synthetic != "" && (strings.HasSuffix(callee.Name(), "$bound") || strings.HasSuffix(callee.Name(), "$thunk")) && pr != "" && c.P.ByPath[modPath+"/"+pr] != nil {
+				return false
+			}
 			return true
 		}
 		return false
